@@ -1,6 +1,7 @@
 package main
 
 import (
+	"encoding/json"
 	"fmt"
 	"sort"
 	"strconv"
@@ -40,7 +41,60 @@ func describeChar(c *characteristic.Characteristic) string {
 		def = fmt.Sprintf("other:%T", c.Value)
 	}
 	return fmt.Sprintf("type=%s format=%s perms=%s min=%s max=%s step=%s default=%s unit=%s", c.Type, c.Format, strings.Join(c.Perms, ","),
-		numText(c.MinValue), numText(c.MaxValue), numText(c.StepValue), def, c.Unit)
+		numText(c.MinValue), numText(c.MaxValue), numText(c.StepValue), def, c.Unit) + servedView(c)
+}
+
+// servedView: what a controller is served (the JSON of the characteristic) must declare what the object declares.
+// Returns "" when it does, " served=<differences>" otherwise.
+func servedView(c *characteristic.Characteristic) string {
+	b, err := json.Marshal(c)
+	if err != nil {
+		return " served=unencodable"
+	}
+	var m map[string]interface{}
+	if json.Unmarshal(b, &m) != nil {
+		return " served=not-an-object"
+	}
+	var diffs []string
+	str := func(k, want string) {
+		got, _ := m[k].(string)
+		if got != want {
+			diffs = append(diffs, fmt.Sprintf("%s:%q/%q", k, got, want))
+		}
+	}
+	str("type", c.Type)
+	str("format", c.Format)
+	str("unit", c.Unit)
+	var perms []string
+	if l, ok := m["perms"].([]interface{}); ok {
+		for _, x := range l {
+			perms = append(perms, fmt.Sprint(x))
+		}
+	}
+	if strings.Join(perms, ",") != strings.Join(c.Perms, ",") {
+		diffs = append(diffs, "perms:"+strings.Join(perms, ","))
+	}
+	num := func(k string, v interface{}) {
+		var want *float64
+		switch x := v.(type) {
+		case int:
+			f := float64(x)
+			want = &f
+		case float64:
+			want = &x
+		}
+		got, has := m[k].(float64)
+		if (want == nil) != !has || (want != nil && *want != got) {
+			diffs = append(diffs, fmt.Sprintf("%s:%v/%s", k, m[k], numText(v)))
+		}
+	}
+	num("minValue", c.MinValue)
+	num("maxValue", c.MaxValue)
+	num("minStep", c.StepValue)
+	if len(diffs) == 0 {
+		return ""
+	}
+	return " served=" + strings.Join(diffs, ";")
 }
 
 // cases:  char <ctor> | svc <ctor> | accessories
@@ -72,26 +126,35 @@ func runCatalog(id string, toks []string) (res string) {
 		}
 		return fmt.Sprintf("type=%s chars=%s", s.Type, strings.Join(ts, ","))
 	case "accessories":
-		info := accessory.Info{Name: "n"}
+		// every accessory constructor, once with a minimal Info and once with a fully populated one:
+		// <name>:<#services>:<#characteristics>:<svcType>[<charType>,...]/<svcType>[...]...
 		var out []string
-		add := func(name string, a *accessory.Accessory) {
-			n := 0
-			for _, s := range a.Services {
-				n += len(s.Characteristics)
+		for vi, info := range []accessory.Info{{Name: "n"}, {Name: "n", SerialNumber: "sn", Manufacturer: "mf", Model: "md", FirmwareRevision: "1.2.3"}} {
+			add := func(name string, a *accessory.Accessory) {
+				n := 0
+				var svcs []string
+				for _, s := range a.Services {
+					n += len(s.Characteristics)
+					var ts []string
+					for _, c := range s.Characteristics {
+						ts = append(ts, c.Type)
+					}
+					svcs = append(svcs, s.Type+"["+strings.Join(ts, ",")+"]")
+				}
+				out = append(out, fmt.Sprintf("%s.%d:%d:%d:%s", name, vi, len(a.Services), n, strings.Join(svcs, "/")))
 			}
-			out = append(out, fmt.Sprintf("%s:%d:%d", name, len(a.Services), n))
+			add("New", accessory.New(info, accessory.TypeOther))
+			add("Bridge", accessory.NewBridge(info).Accessory)
+			add("Camera", accessory.NewCamera(info).Accessory)
+			add("ColoredLightbulb", accessory.NewColoredLightbulb(info).Accessory)
+			add("Lightbulb", accessory.NewLightbulb(info).Accessory)
+			add("Outlet", accessory.NewOutlet(info).Accessory)
+			add("Switch", accessory.NewSwitch(info).Accessory)
+			add("Television", accessory.NewTelevision(info).Accessory)
+			add("TemperatureSensor", accessory.NewTemperatureSensor(info, 20, 0, 40, 1).Accessory)
+			add("Thermostat", accessory.NewThermostat(info, 20, 10, 30, 1).Accessory)
+			add("Window", accessory.NewWindow(info, 0).Accessory)
 		}
-		add("New", accessory.New(info, accessory.TypeOther))
-		add("Bridge", accessory.NewBridge(info).Accessory)
-		add("Camera", accessory.NewCamera(info).Accessory)
-		add("ColoredLightbulb", accessory.NewColoredLightbulb(info).Accessory)
-		add("Lightbulb", accessory.NewLightbulb(info).Accessory)
-		add("Outlet", accessory.NewOutlet(info).Accessory)
-		add("Switch", accessory.NewSwitch(info).Accessory)
-		add("Television", accessory.NewTelevision(info).Accessory)
-		add("TemperatureSensor", accessory.NewTemperatureSensor(info, 20, 0, 40, 1).Accessory)
-		add("Thermostat", accessory.NewThermostat(info, 20, 10, 30, 1).Accessory)
-		add("Window", accessory.NewWindow(info, 0).Accessory)
 		sort.Strings(out)
 		return strings.Join(out, " ")
 	}
